@@ -85,6 +85,39 @@ Theorem retry_once_largest : forall t r s l d tm nl p,
 Proof. exact retry_on_largest. Qed.
 Print Assumptions retry_once_largest.
 
-(* NOT PROVED: background_bounded (c07_background (observe s) = "") -- as a state invariant it needs hypotheses on
-   the event list (no client uses the invocation key reserved for background learning; background learners do not
-   ask for retries), see docs/areas/Sched-proofs.md. *)
+(* ---- background_bounded ------------------------------------------------------------------------------------------------------
+   [bg_scripts_ok evs] (ProofsBg1.v) is a predicate over the event list: every Execute event
+   - does not use the invocation key path [4294967295] that the scheduler reserves for background learning
+     ([x_keys a <> bgp]), and
+   - carries a learner script [lrn_ok]: every learner it hands out for a background run (the learner inside a
+     Succeeded answer, at any depth of the script) asks for no retry ([l_fail bl = None]).
+   Outside it the state predicate is false of the model (and of the code): a client operation queued under the reserved
+   key counts towards the backlog, and a background task that is retried moves into the background invocation of the
+   largest size class without the backlog check.  [selectors_in_range] and the escape are those of [sched_exclusive].
+   Under these hypotheses: an operation created for background learning belongs to a task that is not cacheable until
+   the task completes ([ML], all runs), and the number of operations queued in the background invocation of any size
+   class queue never exceeds the platform queue's maximum ([BQ]). *)
+Theorem background_bounded : forall cfg t0 evs, selectors_in_range (init cfg t0) evs -> bg_scripts_ok evs ->
+  panicked (snd (run (init cfg t0) evs)) \/ c07_background (observe (fst (run (init cfg t0) evs))) = ""%string.
+Proof. exact background_bounded. Qed.
+Print Assumptions background_bounded.
+
+(* the model-level facts behind it *)
+Theorem background_ops_not_cacheable : forall cfg t0 evs, ML (fst (run (init cfg t0) evs)).
+Proof. exact ML_run. Qed.
+Print Assumptions background_ops_not_cacheable.
+
+Theorem background_learners_no_retry : forall cfg t0 evs, bg_scripts_ok evs -> BT (fst (run (init cfg t0) evs)).
+Proof. exact BT_run. Qed.
+Print Assumptions background_learners_no_retry.
+
+(* the hypothesis is decidable on concrete histories; a generated history satisfies it *)
+Theorem bg_scripts_okb_sound : forall evs, forallb (fun eh => ev_bg_okb (fst eh)) evs = true -> bg_scripts_ok evs.
+Proof. exact bg_scripts_okb_sound. Qed.
+Example generated_history_bg_ok : bg_scripts_ok gen_evs.
+Proof. exact gen_bg_scripts_ok. Qed.
+Example generated_history_background_bounded : c07_background (observe (fst (run (init gen_cfg gen_t0) gen_evs))) = ""%string.
+Proof.
+  destruct (background_bounded gen_cfg gen_t0 gen_evs gen_selectors_in_range gen_bg_scripts_ok) as [[o [what [Ho Hp]]]|H]; [|exact H].
+  exfalso. exact (gen_no_panic o what Ho Hp).
+Qed.
